@@ -24,7 +24,7 @@ from pysparkling import Context
 from pysparkling.rdd import RDD
 
 ID = 'C16'
-SHARD = 120
+SHARD = 200
 KERNELS = ['Gen/Sampling.v: compute_fraction', 'Gen/Sampling.v: rs_next', 'Gen/Sampling.v: rs_first',
            'Gen/Sampling.v: rs_force_last', 'Gen/Sampling.v: rs_member', 'Gen/Sampling.v: bern_mult',
            'Gen/Sampling.v: bernkey_mult', 'Gen/Sampling.v: bernkey_default', 'Gen/Sampling.v: poiskey_default',
@@ -140,7 +140,12 @@ def finish(op, data, nsl, seed, params, script, tag, entropy=0):
     if script is None:
         table = tap.streams()
     else:
-        table = dict(script)
+        # keep what was consumed plus a little slack (the replay consumes exactly the same)
+        used = tap.streams()
+        table = {}
+        for k, (u, b) in script.items():
+            cu, cb = used.get(k, ([], []))
+            table[k] = (list(u)[:len(cu) + 2], list(b)[:len(cb) + 1])
     streams = [(k, list(u), list(b)) for k, (u, b) in table.items()]
     exps = [(x, y) for x, y in mt.exps.items()]
     logs = [(x, y) for x, y in mt.logs.items()]
@@ -349,7 +354,7 @@ def generate(rng, tier):
     # ---- sample
     fr_no = [0.0, 5e-324, 0.01, 0.3, 0.5, 0.99, ONE_MINUS, 1.0, 1.5, -0.5]
     fr_re = [0.0, 0.5, 1.0, 3.0, 0.01, 7.5, -1.0, -0.0]
-    for _ in range(60 if quick else 1500):
+    for _ in range(130 if quick else 1500):
         data = gen_data(rng)
         nsl = gen_slices(rng, len(data))
         seed = gen_seed(rng)
@@ -358,7 +363,7 @@ def generate(rng, tier):
         as_int = f in (0.0, 1.0, 3.0) and str(f) != '-0.0' and rng.random() < 0.3
         both(rng, out, 0, data, nsl, seed, (wr, f, as_int), [f], f if wr else 0.0)
     # ---- sampleByKey
-    for _ in range(40 if quick else 1000):
+    for _ in range(90 if quick else 1000):
         data = gen_data(rng, keyed=True)
         nsl = gen_slices(rng, len(data))
         seed = gen_seed(rng)
@@ -370,21 +375,29 @@ def generate(rng, tier):
     for data in ([1, 2], [(), (1, 2)], ['ab', ''], [None]):
         both(rng, out, 1, data, 2, 3, (False, {1: 0.5, 'a': 1.0}), [0.5])
     # ---- takeSample
-    for _ in range(50 if quick else 1200):
+    for _ in range(110 if quick else 1200):
         data = gen_data(rng, maxlen=14)
         nsl = gen_slices(rng, len(data))
         seed = gen_seed(rng)
         wr = rng.random() < 0.5
         num = rng.choice(list(range(0, len(data) + 4)) + [-1])
-        lam = RDD._computeFractionForSampleSize(max(num, 1), max(1, min(num, len(data))), True) if wr else 0.0
+        try:
+            lam = RDD._computeFractionForSampleSize(max(num, 1), max(1, min(num, len(data))), True) if wr else 0.0
+        except Exception:  # pylint: disable=broad-except
+            lam = 5.0
         both(rng, out, 2, data, nsl, seed, (wr, num), [], lam)
     both(rng, out, 2, [1, 2, 3], 2, 3, (True, 9223372006484770809), [])
     both(rng, out, 2, [1, 2, 3], 2, 3, (False, 9223372006484770809), [])
+    # the witness of C16_takeSample_repl_refuted replayed on the implementation: on a stream of zeros the
+    # re-sampling loop runs until the generator has no more raw integers to hand out
+    zeros = LazyScript(lambda key: ([0.0] * 8, [0] * 5))
+    out.append(finish(2, [7], 1, 0, (True, 1), zeros, 'scr'))
+    out.append(finish(2, [7, 7, 8], 2, 0, (True, 2), LazyScript(lambda key: ([0.0] * 8, [0] * 5)), 'scr'))
     # ---- randomSplit
     wvs = [[2, 3], [1], [0.1] * 10, [0.5, 0.5], [1, 1, 1], [0.3, 0.3, 0.4], [1e-3, 1.0], [0, 1], [1, 0], [0.0, 0.0, 2.5],
            [3, 0.5], [0.5, 3], [0.1, 0.2, 0.3, 0.4], [1 / 3] * 3, [1e308, 1e308], [5e-324, 5e-324], [0.7, 0.1, 0.2], [1.0],
            [0, 0], [0.0], [], [1, 2, 3, 4, 5, 6, 7], [0.1] * 7, [2 ** 52 + 1, 1, 0.5]]
-    for _ in range(50 if quick else 1200):
+    for _ in range(110 if quick else 1200):
         data = gen_data(rng, maxlen=30)
         nsl = gen_slices(rng, len(data))
         seed = gen_seed(rng)
